@@ -2,11 +2,21 @@
 SOURCE_COMMITS = []
 NOTES = "All checks are bounded exhaustive explorations driving the real mchap code (see DESIGN.md)."
 ENGINES = [
+    {"name": "K", "path": "vmc/seams.py, vmc/kasm.py, vmc/kcall.py", "serves_properties": ["C01", "C02"],
+     "kind_free_text": "explicit-state Markov-kernel extraction: sampler bodies run as numba py_func with every random seam replaced by an oracle that records the probability vector and forces each answer; DFS over answer sequences"},
     {"name": "inputs", "path": "vmc/checks", "serves_properties": ["C05"],
      "kind_free_text": "bounded exhaustive enumeration of inputs/configurations against boring reference models"},
 ]
 _PENDING = "check not built yet in this session (work in progress; see DESIGN.md build order)"
 CHECKS = {
+    "C01": dict(engine="K", category="model_checking",
+                technique="explicit-state extraction of the exact Markov kernel of every elementary move (random seam owned, every answer forced) + invariants on every state/edge; exhaustive answer-sequence enumeration of the orchestration loop",
+                text="For every instance in the bound, all unordered genotypes in all row orders are fed to the real base_step / interval_step / chain_swap_step bodies; the exact transition rows are read off the seam and detailed balance w.r.t. an independent reference posterior, order-invariance, proposal de-duplication, returned likelihood, exchange acceptance and irreducibility are decided on every state and edge. The orchestration loop is run against recording stubs for every gate/swap answer sequence and compared with a reference loop. A proposal-ratio error shows as a violated edge, not as drift inside a statistical tolerance.",
+                note="Trusted: refmodel likelihood/prior; py_func == dispatcher source (cross-checked by predicting the compiled move from numba's RNG once per state and move). Bounds in evidence."),
+    "C02": dict(engine="K", category="model_checking",
+                technique="exhaustive state x slot x allele enumeration of Gibbs/MH vectors; exact compound-step transition matrix by enumerating every scan order and choice sequence; pi P = pi",
+                text="All sorted genotypes (every slot order, every slot) over H<=4 haplotypes and P<=4 with flat/skewed/zero-entry frequencies: Gibbs vector == exact full conditional of the reference posterior, MH detailed balance, zero mass into zero-prior states; compound step matrix from all seam answer paths is stationary at the reference posterior; jitted sampler traces follow positive edges with exact llk.",
+                note="Trusted: refmodel posterior. Monte-Carlo error size is not measured."),
     "C05": dict(engine="inputs", category="exploration",
                 technique="bounded exhaustive input enumeration vs exact reference pmf",
                 text="Every (ploidy, allele count, inbreeding, frequency-grid vector incl. zeros) x every unordered genotype x every slot inside the stated bound is evaluated on the jitted prior functions and compared with an exact multinomial/Dirichlet-multinomial reference; sum-to-one, conditional and assemble==call(flat) are decided on the complete bounded space, which unit tests only sample at a few points.",
